@@ -138,7 +138,14 @@ func init() {
 			efs[i] = t.effect()
 		}
 		f := func(e expr.Expr) expr.Expr { return exprtransform.SetWidth(e, w) }
-		return fmtEffects(exprtransform.EffectsApply(efs, f))
+		// The caller's list must not be touched: it is printed before and
+		// after, and the call is repeated on the same list.
+		before := fmtEffects(efs)
+		out := fmtEffects(exprtransform.EffectsApply(efs, f))
+		if fmtEffects(efs) != before || fmtEffects(exprtransform.EffectsApply(efs, f)) != out {
+			return out + " !!input-mutated"
+		}
+		return out
 	})
 	// wgarg E => some A | none
 	register("wgarg", func(t *tokens) string {
